@@ -33,7 +33,7 @@ Definition labels_of (g : grp) : list label :=
   end.
 
 Definition v_spc (p : spc) : Z := match p with PReady => 0 | PWaitPaused => 1 | PWaitDrain => 2 | PDone => 3 end.
-Definition v_task (p : stpc) : Z := match p with TTop => 0 | TWaiting => 1 | TExited => 2 | TCrashed => 3 end.
+Definition v_task (p : stpc) : Z := match p with TTop => 0 | TWaiting => 1 | TExited => 2 end.
 
 Definition obs_strm (t : st) (s : Z) : val :=
   let x := strms t s in
@@ -45,7 +45,7 @@ Definition obs_strm (t : st) (s : Z) : val :=
 
 Definition obs_state (t : st) : val :=
   VL [VL (map (obs_strm t) (rev (ids t))); vbool (has_data t); vbool (closed t); VZ (cwin t);
-      vbool (send_runnable t); VZ (v_task (task t)); vbool (bad_pick t); VZ (zlen (out t))].
+      vbool (send_runnable t); VZ (v_task (task t)); vbool (bad_pick t); vbool (reader_ok t); VZ (zlen (out t))].
 
 Definition sum_bytes (d : list N) : Z := fold_left (fun a x => a + Z.of_N x) d 0.
 Definition obs_frame (f : frame) : val :=
